@@ -380,6 +380,20 @@ def _run_read(run, p, tgt, plc, reqs, forced_status):
             run.add("C01", f"read.type.{k}", f"{name}: type {tag.type!r}, expected {wtype!r}")
         if tag.error is not None:
             run.add("C03", "read.truthy-with-error", f"{name}: {tag!r}"[:300])
+    # the caller owns the returned values: modify them in place, read again, and expect the controller's values again
+    valid = [(r, t) for r, t in zip(reqs, res) if not r.get("invalid") and t]
+    if valid and len(valid) <= 12:
+        from .refcodec import scramble
+        for r, t in valid:
+            if isinstance(t.value, (list, dict)):
+                scramble(t.value)
+        ok2, res2 = call(run, lambda: plc.read(*[render(r) for r, _ in valid]), "read")
+        if ok2:
+            res2 = res2 if isinstance(res2, list) else [res2]
+            for (r, _), tag in zip(valid, res2):
+                want, _ = expected_read(p, tgt.memory, r)
+                if not tag or not ref_equal(tag.value, want):
+                    run.add("C01", f"read.repeat.{kind_of(p, r)}", f"{render(r)}: a second read (after the caller modified the first result) returned {_short(tag.value if tag else tag)}, controller holds {_short(want)}"[:700])
 
 
 def _run_write(run, p, tgt, plc, reqs, forced_status, want_readback):
